@@ -27,7 +27,7 @@ var Formats = []Format{
 	{"json-pretty", true, restlicodec.NewPrettyJsonWriter, func(d string) (restlicodec.Reader, error) { return restlicodec.NewJsonReader([]byte(d)) }},
 	{"ror2-header", false, restlicodec.NewRor2HeaderWriter, restlicodec.NewRor2Reader},
 	{"ror2-path", false, func() restlicodec.Writer { return restlicodec.NewRor2PathWriter() }, restlicodec.NewRor2Reader},
-	{"ror2-query", false, restlicodec.NewRestLiQueryParamsWriter, func(d string) (restlicodec.Reader, error) {
+	{"ror2-query", false, func() restlicodec.Writer { return restlicodec.NewRestLiQueryParamsWriter() }, func(d string) (restlicodec.Reader, error) {
 		m, err := restlicodec.ParseQueryParams("v=" + d)
 		if err != nil {
 			return nil, err
